@@ -53,6 +53,10 @@ class ZONEINFO(TZProvider):
             # a zone, e.g. IsADirectoryError for "America", or it is too long
             # to be a file name.
             pass
+        except RecursionError:
+            # zoneinfo imports one package per "/" of the key when it looks
+            # into the tzdata package: a key of some hundred segments.
+            pass
 
     def knows_timezone_id(self, id: str) -> bool:
         """Whether the timezone is already cached by the implementation."""
